@@ -391,8 +391,17 @@ class C03:
             if v2 is not None and v2[0] == "ok":
                 cause = "+".join(feats)
         if cause == "multiline-string":
-            # keyed by placement: a multi-line argument is fine in some positions and mis-wrapped in others
-            rec.violation(f"{kind}/multiline-string@{where}", case, detail)
+            # keyed by structure: a multi-line argument is fine in most positions; the listed mis-wrappings need a chain around
+            # it, or the three-on-a-line shape with a one-word middle command
+            if where.startswith("three-on-a-line"):
+                # in these placements the pristine recovery loop mis-wraps in many ways (head replaced by copies of the middle
+                # commands, commands run two or three times ...): one listed zone per placement, whatever the symptom
+                sub = f"@{where}"
+            elif has_chain(tree):
+                sub = "-in-a-chain-segment"
+            else:
+                sub = f"@{where}"
+            rec.violation(f"{kind}/multiline-string{sub}", case, detail)
         elif cause:
             rec.violation(f"{kind}/{cause}", case, detail)
         else:
@@ -497,6 +506,15 @@ class C03:
                         s = s[:j] + s[j + rng.randint(1, 3):]
                     else:
                         s = s[:j] + s[j:][::-1][: rng.randint(0, 5)] + s[j:]
+            elif k < 0.86:
+                # `;`-joined commands inside an indented block with nested / unbalanced brackets in a substitution: the token
+                # window arithmetic of subproc_toks at its edges (must end in a program or a SyntaxError, never an IndexError)
+                ind = rng.choice(["    ", "\t", "  "])
+                hdr = rng.choice(["if True:", "for i in x:", "def f():", "with a:", "while b:"])
+                inner = rng.choice(["(1)", "((1))", "(1", "1)", "f(1)", "(a, (b))", "[1", "{", "(1))", ""])
+                sub = rng.choice(["$(cmd3 %s)", "@(f%s)", "$[cmd3 %s]", "!(cmd3 %s)", "@$(cmd3 %s)", "${%s}"]) % inner
+                segs = [rng.choice(["cmd1 a", "cmd2", "cmd4 -x " + sub, "cmd5 " + sub + " z", "cmd6 'q'"]) for _ in range(rng.randint(2, 4))]
+                s = hdr + "\n" + ind + rng.choice(["; ", ";", " ; "]).join(segs) + rng.choice(["", ";", " &&", " |"])
             else:
                 s = "\n".join("".join(rng.choice(LEX + ["a", "b", " "]) for _ in range(rng.randint(0, 12))) for _ in range(rng.randint(1, 40)))
             yield s[:4096] + ("\n" if rng.random() < 0.8 else "")
